@@ -2128,6 +2128,24 @@ class LogicalFile:
         self._check_completeness()
         self._check_channels_assigned_to_frames()
         self._check_defining_origin_params()
+        self._check_references()
+
+    def _check_references(self) -> None:
+        """Check that all objects referenced by the objects of this logical file belong to this logical file.
+
+        A reference to an object of another logical file cannot be resolved by a reader of this logical file.
+        """
+
+        own_sets = {id(s) for set_dict in self._eflr_sets.values() for s in set_dict.values()}
+        for set_dict in self._eflr_sets.values():
+            for eflr_set in set_dict.values():
+                for item in eflr_set.get_all_eflr_items():
+                    for attr in item.attributes.values():
+                        values = attr.value if isinstance(attr.value, (list, tuple)) else [attr.value]
+                        for v in values:
+                            if isinstance(v, EFLRItem) and id(v.parent) not in own_sets:
+                                raise RuntimeError(f"{attr.label} of {item} refers to {v}, "
+                                                   f"which does not belong to the same logical file")
 
     def _check_defining_origin_params(self) -> None:
         """Check that the file_id of the defining origin is the same as the ID of the header."""
